@@ -99,8 +99,13 @@ package sqlx
 //@   requires db != nil
 //@   let benign = err == nil || err == sql.ErrNoRows || err == sql.ErrTxDone || err == context.Canceled
 //@   ensures [benign-always-acceptable] benign ==> result
-//@   ensures [no-classifier-benign-only] db.accept == nil ==> result == benign
-//@   ensures [classifier-widens] db.accept != nil && !benign ==> calls(db.accept, err) == 1 && result == ret(db.accept)
+//@   ensures [no-classifier-benign-only] db.accept == nil ==> result == (benign || (calls(errors.Is) >= 1 && ret(errors.Is, 0, last)))
+//@   ensures [classifier-widens] db.accept != nil && !benign && !(calls(errors.Is) >= 1 && ret(errors.Is, 0, last)) ==> calls(db.accept, err) == 1 && result == ret(db.accept)
+// a benign outcome stays benign when it arrives wrapped (fmt.Errorf("...: %w", ErrNotFound), a net error wrapping
+// the cancellation): whatever errors.Is recognises as one of the three is acceptable
+//@   replay sqlx_wrapped_benign
+//@   ensures [wrapped-benign-acceptable] calls(errors.Is) >= 1 && ret(errors.Is, 0, last) ==> result
+//@   ensures [asked-about-the-three-benign-errors] err != nil && !result ==> calls(errors.Is) == 3 && arg(errors.Is, 1, 1) == sql.ErrNoRows && arg(errors.Is, 1, 2) == sql.ErrTxDone && arg(errors.Is, 1, 3) == context.Canceled && arg(errors.Is, 0, 1) == err && arg(errors.Is, 0, 2) == err && arg(errors.Is, 0, 3) == err
 
 // unmarshalRows into a slice of structs: every row is mapped with the caller's strictness (so a strict query
 // rejects rows whose columns do not cover the destination, row by row) against the columns of this result set,
